@@ -295,7 +295,7 @@ def run_case(case, ctx):
         built = planted.build(rng, pat, case["cell"], atol_plant, n_copies=k, crossings=[int(x) for x in rng.integers(0, 4, k)], n_bystanders=int(rng.integers(1, 6)),
                               n_distractors=0, perturb=0.3 if atol_plant == 0.3 else 0.08, min_sep=1.35)
         S = built["atoms"]
-        if case["single"] == "findonly" and case["s"] % 2 == 0:
+        if case["single"] == "findonly":
             # a hub: one atom bonded to three or four like neighbours, searched for as (centre, neighbour) - several matches begin
             # with the same structure atom (a report keyed by the first atom of a match would lose them)
             from mofun import Atoms as _Atoms
